@@ -380,3 +380,50 @@ Definition activity (s : st) (l : label) : bool :=
   | _ => false
   end.
 
+
+(* ------------------------------------------------------------------ *)
+(* The skeletons this model (fx = true) was written against            *)
+Open Scope string_scope.
+
+Definition expected_Close : skel :=
+  [SFunc [SCall "doClose"]; SOnce "s.closeOnce" [SCall "doClose"]; SReturn].
+
+Definition expected_doClose : skel :=
+  [SClose "s.closing"; SCall "verifYield";
+   SLock "s.expSyncMutex"; SUnlock "s.expSyncMutex"; SCall "verifYield";
+   SWgWait "s.expSyncWG"; SCall "verifYield";
+   SIf "" [SCall "Close"; SRecv "s.watchDone"] []; SCall "verifYield";
+   SWgWait "s.asyncWG"; SCall "verifYield";
+   SClose "s.inEvents"; SCall "verifYield";
+   SRecv "s.distDone";
+   SCall "Close";
+   SReturn].
+
+Definition expected_idleHandlerCleaner : skel :=
+  [SFor [SSelect false [[SRecv "t.C"; SLock "s.handlersMutex"; SUnlock "s.handlersMutex"];
+                        [SRecv "s.closing"; SReturn]]]].
+
+Definition expected_Announce : skel := [SIf "" [SReturn] []; SReturn].
+
+(* the explicit-sync gate: first five synchronisation operations of SyncAdChain / syncEntries *)
+Definition expected_gate : skel :=
+  [SLock "s.expSyncMutex";
+   SIf "" [SUnlock "s.expSyncMutex"] [];
+   SWgAdd "s.expSyncWG";
+   SUnlock "s.expSyncMutex";
+   SDefer [SWgDone "s.expSyncWG"]].
+
+Definition gate_of (gen : list (string * skel)) (n : string) : bool :=
+  skel_eqb (firstn 5 (proj keep_calls (lookup_or_nil n gen))) expected_gate.
+
+Definition tie_ok15 (gen : list (string * skel)) : bool :=
+  full_of gen "Subscriber.Close" expected_Close &&
+  full_of gen "Subscriber.doClose" expected_doClose &&
+  full_of gen "Subscriber.OnSyncFinished" expected_OnSyncFinished &&
+  full_of gen "Subscriber.distributeEvents" expected_distributeEvents_signalling &&
+  full_of gen "Subscriber.idleHandlerCleaner" expected_idleHandlerCleaner &&
+  full_of gen "Subscriber.Announce" expected_Announce &&
+  proj_of gen "Subscriber.watch" expected_watch &&
+  gate_of gen "Subscriber.SyncAdChain" && gate_of gen "Subscriber.syncEntries" &&
+  full_of gen "handler.sendSyncFinishedEvent" expected_sendSyncFinishedEvent &&
+  full_of gen "handler.asyncSyncFailed" expected_asyncSyncFailed.
